@@ -77,7 +77,7 @@ def main(argv):
     finally:
         shutil.rmtree(d, ignore_errors=True)
     meta['confirmed'] = bool(meta['repo_tests_pass_with_patch'] and meta['demo_with_patch']['exit'] != 0 and meta['demo_without_patch']['exit'] == 0)
-    meta['ran'] = ['rsync copy of /repo + patch -p1', 'pytest -q -n 8 (whole suite) in the patched copy', 'demo.py in patched and unpatched copy',
+    meta['ran'] = ['rsync copy of /repo + patch -p1', 'pytest -q -n 4 (whole suite) in the patched copy', 'demo.py in patched and unpatched copy',
                    './check <ID> %s with VERIF_REPO=<patched copy>' % tier]
     json.dump(meta, open(os.path.join(dest, 'meta.json'), 'w'), indent=1)
     print(json.dumps(meta, indent=1))
